@@ -197,6 +197,29 @@ var verifC09Jobs = []string{
     needs: [missing_two, MISSING_THREE]
     steps:
       - run: echo
+`, `
+    runs-on: windows-latest
+    steps:
+      - run: echo
+        shell: pwsh
+`, `
+    steps:
+      - run: echo
+        shell: sh
+      - run: echo
+        shell: cmd
+`, `
+    runs-on: [self-hosted, macos-latest]
+    steps:
+      - run: echo
+        shell: bash
+`, `
+    runs-on: ${{ matrix.os }}
+    strategy:
+      matrix:
+        os: [ubuntu-latest, windows-latest]
+    steps:
+      - run: echo
 `,
 }
 
@@ -415,7 +438,7 @@ func HarnessC09OddKey() {
 			yMap(s("uses"), s("actions/checkout@v4"), s("with"), yMap(put(1, []*yaml.Node{s("no-such-input"), s("1")}, s("v"))...)),
 			yMap(s("run"), s("echo"), s("env"), yMap(put(2, []*yaml.Node{s("A"), s("${{ unknown.x }}")}, s("v"))...)),
 		), s("strategy"), yMap(s("matrix"), yMap(put(3, []*yaml.Node{s("row"), ySeq(s("a"), s("a"))}, ySeq(s("q")))...)))
-		jobs := put(0, []*yaml.Node{s("victim"), victim}, yMap(s("runs-on"), s("ubuntu-latest"), s("steps"), ySeq(yMap(s("run"), s("echo")))))
+		jobs := put(0, []*yaml.Node{s("victim"), victim}, yMap(s("runs-on"), s("ubuntu-latest"), s("steps"), ySeq(yMap(s("id"), s("s1"), s("run"), s("echo")), yMap(s("id"), s("s2"), s("uses"), s("actions/checkout@v4")))))
 		return yDoc(yMap(s("on"), s("push"), s("jobs"), yMap(jobs...)))
 	}
 	kinds := func(errs []*Error) string {
